@@ -377,6 +377,18 @@ func (s *Server) handleMessage(msg json.RawMessage) {
 
 	// Validate required JSON-RPC fields
 	if req.Method == "" {
+		// An object without a method that carries a result or an error is a
+		// response (to a request this server never sent): responses are not
+		// answered, or the client receives a reply nobody asked for under an id
+		// that may be one of its own requests
+		var resp struct {
+			Result json.RawMessage `json:"result"`
+			Error  json.RawMessage `json:"error"`
+		}
+		if err := json.Unmarshal(msg, &resp); err == nil && (resp.Result != nil || resp.Error != nil) {
+			s.logger.Printf("Ignoring a response message (no request of this server is outstanding)")
+			return
+		}
 		s.logger.Printf("Invalid request: missing method")
 		if req.ID != nil {
 			s.sendError(req.ID, InvalidRequest, "missing method field")
